@@ -1,4 +1,4 @@
-import Qfproto.GrouperInv
+import QF.Core.GrouperInv
 /-! Prototype: growth preserves the table invariant; counting; assembly. -/
 namespace G
 
